@@ -138,6 +138,32 @@ func c08Input(r *rand.Rand) ([]byte, string) {
 			setSlot(s, nv)
 			what = append(what, s.path)
 		}
+		if chance(r, 25) {
+			// a member renamed to a hostile key, its value of a hostile type (annotation
+			// maps are the place where arbitrary keys are legal)
+			var objs []*OMap
+			for _, sl := range slots {
+				if o, ok := getSlot(sl).(*OMap); ok && len(o.K) > 0 {
+					objs = append(objs, o)
+				}
+			}
+			if v, ok := d.Get("annotations"); ok {
+				if o, ok := v.(*OMap); ok && len(o.K) > 0 {
+					objs = append(objs, o, o, o)
+				}
+			} else if chance(r, 50) {
+				o := om("k", "v")
+				d.Set("annotations", o)
+				objs = append(objs, o, o, o)
+			}
+			if len(objs) > 0 {
+				o := objs[r.Intn(len(objs))]
+				i := r.Intn(len(o.K))
+				o.K[i] = pickStr(r, "", "\n", "\n\n", " ", "\x00", "é", ".", "/", "a/b/c", strings.Repeat("k", 300))
+				o.V[i] = cloneDoc(c08Hostile[r.Intn(len(c08Hostile))])
+				what = append(what, "rekey")
+			}
+		}
 		return emit(d), "structural mutation at " + strings.Join(what, ",")
 	case k < 68: // YAML features
 		t := c08YAML[r.Intn(len(c08YAML))]
